@@ -304,4 +304,116 @@ termination_by _ xs ys => xs.length + ys.length
 def concurrentPrefix (shared : Bool) (old : Option Content) (ca cb : List Content) (sched : List Bool) (j : Nat) : CDir :=
   ((merge2 sched (atomicSteps ca) (atomicSteps cb)).take j).foldl (cStep shared) { final := old, ta := none, tb := none }
 
+/-! ### Error VALUES, and a write inside a `Walk` callback (strengthening S4C)
+
+Everything above treats an error as a Boolean.  Helper code, however, TESTS error values:
+not-exist means "nothing there", `io.EOF` means "done", `filepath.SkipDir` means "skip",
+`context.Canceled` means "stopping anyway".  A write failure that happens to carry such a value
+must still be reported.  `ErrV` is the shape of a Go error value as far as `os.IsNotExist`,
+`errors.Is` and `==` can tell. -/
+
+inductive Errno where
+  | enoent | eexist | enotdir | eisdir | eacces | enospc
+  deriving DecidableEq, Repr
+
+inductive Sentinel where
+  | notExist | exist | permission | eof | unexpectedEOF | shortWrite | closedPipe
+  | canceled | deadline | closed | osClosed | skipDir | skipAll
+  deriving DecidableEq, Repr
+
+inductive ErrV where
+  | injected                      -- an opaque errors.New value
+  | errno (e : Errno)             -- a bare syscall.Errno
+  | pathError (e : Errno)         -- *fs.PathError{Err: errno}
+  | linkError (e : Errno)         -- *os.LinkError
+  | syscallError (e : Errno)      -- *os.SyscallError
+  | sentinel (s : Sentinel)
+  | wrap (e : ErrV)               -- fmt.Errorf("…: %w", e)
+  | join1 (e : ErrV)              -- errors.Join(e, nil)
+  | join2 (a b : ErrV)            -- errors.Join(a, b)
+  deriving DecidableEq, Repr
+
+def Errno.isNotExist : Errno → Bool
+  | .enoent => true
+  | _ => false
+
+/-- `os.IsNotExist`: looks through ONE *PathError / *LinkError / *SyscallError, never through
+    `%w` or `errors.Join`. -/
+def osIsNotExist : ErrV → Bool
+  | .errno e => e.isNotExist
+  | .pathError e => e.isNotExist
+  | .linkError e => e.isNotExist
+  | .syscallError e => e.isNotExist
+  | .sentinel s => s == .notExist
+  | _ => false
+
+/-- `errors.Is(err, fs.ErrNotExist)`: unwraps everything. -/
+def errorsIsNotExist : ErrV → Bool
+  | .injected => false
+  | .errno e => e.isNotExist
+  | .pathError e => e.isNotExist
+  | .linkError e => e.isNotExist
+  | .syscallError e => e.isNotExist
+  | .sentinel s => s == .notExist
+  | .wrap e => errorsIsNotExist e
+  | .join1 e => errorsIsNotExist e
+  | .join2 a b => errorsIsNotExist a || errorsIsNotExist b
+
+/-- Which rule `storageos.bucket.Walk` applies to the error that comes back from
+    `filepathext.Walk` — which may be the error of the caller's callback:
+    * `asCoded`  (HEAD before the repair): `os.IsNotExist(err)` ⇒ "the prefix does not exist", nil;
+                  and `filepathext.Walk` turns a returned `filepath.SkipDir` (compared with `==`) into nil;
+    * `errorsIs` (seed C15-m5): the same with `errors.Is(err, fs.ErrNotExist)`;
+    * `fixed`    (handoff/C15-walk-callback-error.diff): an error of the callback is returned as it is. -/
+inductive WalkRule where
+  | asCoded | errorsIs | fixed
+  deriving DecidableEq, Repr
+
+/-- What the disk `Walk` returns when the callback returned `e`. -/
+def diskWalkReturn (rule : WalkRule) (e : ErrV) : Option ErrV :=
+  match rule with
+  | .fixed => some e
+  | .asCoded => if e = .sentinel .skipDir then none else if osIsNotExist e then none else some e
+  | .errorsIs => if e = .sentinel .skipDir then none else if errorsIsNotExist e then none else some e
+
+/-- The loop shapes that write inside a Walk callback. -/
+inductive WalkHelper where
+  | wroCopyReadObject   -- storage.WalkReadObjects + storage.CopyReadObject
+  | wroPutPath          -- storage.WalkReadObjects + storage.PutPath
+  | walkBare            -- Walk + Get + `return storage.CopyReadObject(…)`
+  | exportLike          -- export.go: `if err := CopyReadObject(…); err != nil { return errors.Join(err, f.Close()) }`
+  | walkCopyPath        -- Walk + storage.CopyPath
+  deriving DecidableEq, Repr
+
+/-- The error value that reaches `Walk` when primitive `p` of the destination fails with `e`:
+    a failing Put is returned as it is by CopyReadObject / PutPath (the deferred Close-join is
+    installed after the Put); a failing Write or Close goes through `errors.Join(retErr, Close())`;
+    `WalkReadObjects` returns `errors.Join(f(obj), obj.Close())`, export.go joins on its failure
+    path, `copyPath` has its own deferred join. -/
+def reachesWalk (h : WalkHelper) (p : Prim) (e : ErrV) : ErrV :=
+  let inner := match p with
+    | .put => e
+    | _ => .join1 e
+  match h with
+  | .walkBare => inner
+  | _ => .join1 inner
+
+/-- A copy of `n` objects out of a bucket (`disk` or memory) by helper `h`, primitive `p` of the
+    `k`-th object (walk order) failing with `e`: the error the helper returns (`none` = nil). -/
+def walkCopy (rule : WalkRule) (disk : Bool) (h : WalkHelper) (p : Prim) (e : ErrV) : Option ErrV :=
+  if disk then diskWalkReturn rule (reachesWalk h p e) else some (reachesWalk h p e)
+
+/-- A disk walk whose directory listing is stale: `true` = the entry vanished before it is
+    visited (removed concurrently; the temp file of an atomic Put renamed away).  `lstat` fails
+    with ENOENT; as coded that error ends the walk and is then taken for "prefix does not
+    exist" (nil); the repaired walk skips the entry.  Returns the number of surviving entries
+    visited (the walk returns nil under every rule). -/
+def visitStale (rule : WalkRule) : List Bool → Nat
+  | [] => 0
+  | gone :: rest =>
+    if gone then (match rule with
+      | .fixed => visitStale rule rest
+      | _ => 0)
+    else 1 + visitStale rule rest
+
 end BufModel.Faults
